@@ -35,13 +35,13 @@ PROFILES = {
     "memofail": dict(p_memo=1.0, p_probe=0.7, p_lookahead=0.15, w_extern=1, nrules=(3, 6), p_check=0.35, p_ccheck=0.2, w_char=2),
     "dupfields": dict(nrules=(2, 4), depth=4, small_fieldpool=3, p_multitype=0.85, w_struct=8, w_string=3, w_unit=0, w_alias=0,
                       w_enum=0, w_char=1, p_include=0.15, p_lookahead=0.03, p_noskip=0.1, dense_fields=True),
-    "leftrec": dict(leftrec=1.0, p_memo=0.1, p_position=0.3),
+    "leftrec": dict(leftrec=1.0, p_memo=0.1, p_position=0.3, p_check=0.4),
     "ws": dict(p_noskip=0.5, p_user_ws=0.35, p_include=0.25, w_string=3, p_position=0.3),
     "position": dict(p_position=0.8, p_unicode=0.3, w_string=3, w_enum=2, p_memo=0.15, leftrec=0.15),
     "errors": dict(p_lookahead=0.25, p_check=0.25, w_extern=1, w_char=2, p_ccheck=0.3, p_eoi_root=0.8),
     "include": dict(p_include=0.6, p_noskip=0.4, p_position=0.3, p_memo=0.15, p_check=0.15, w_struct=8,
                     w_unit=2, w_alias=0, w_enum=1),
-    "userfn": dict(p_check=0.6, p_ccheck=0.6, w_extern=4, w_char=2, user_ctx=0.4, w_string=2, w_enum=2, w_alias=2),
+    "userfn": dict(p_check=0.6, p_ccheck=0.6, w_extern=4, w_char=2, user_ctx=0.4, w_string=2, w_enum=2, w_alias=2, leftrec=0.3),
     "trace": dict(p_memo=0.3, leftrec=0.3, p_check=0.3, w_extern=2, p_ccheck=0.2),
     "keywords": dict(p_keywords=0.8),
 }
@@ -520,6 +520,10 @@ class Gen:
             base = Seq([Neg(Ref("LRec")), Ref("LAtom", "r")]) if self.coin(0.5) else Seq([Ref("LAtom", "r"), Neg(Lit(ops[0] + ops[0]))])
             rules.append(Rule("LRec", Cho([rec, base]), ["leftrec"] + d_pos()))
             entry = "LRec"
+        # checks on the left-recursive rule itself: a check that rejects one growth step must stop the growth there
+        for ru in rules:
+            if "leftrec" in ru.directives and not ru.checks():
+                ru.directives += self.checks()
         if self.coin(0.35):
             # base alternatives that can match the empty string (the seed may be an empty match that still grows)
             for ru in rules:
